@@ -6,6 +6,7 @@ package bftx
 import (
 	"bytes"
 	"crypto/sha256"
+	"encoding/hex"
 	"sort"
 
 	"github.com/LiskHQ/lisk-engine/pkg/blockchain"
@@ -70,6 +71,7 @@ type ParamProbe struct {
 	PC   uint64      `json:"pc"`
 	Cert uint64      `json:"cert"`
 	Vals [][2]uint64 `json:"vals"` // (address, BFT weight) in stored order
+	Keys []string    `json:"keys"` // stored BLS key per validator (hex), same order
 }
 
 func uvarint(x uint64) []byte {
@@ -149,7 +151,20 @@ func Addr(n uint32) []byte {
 func AddrN(a []byte) uint32 {
 	return uint32(a[16])<<24 | uint32(a[17])<<16 | uint32(a[18])<<8 | uint32(a[19])
 }
+
+// Vals builds the validator list the way the consensus layer does: application validators (labi) through convert.go's
+// GetBFTValidatorAndGenerators (zero weights occur in the harness only as invalid input and are passed on directly).
 func Vals(vs []Val) liskbft.BFTValidators {
+	lv := labi.Validators{}
+	zero := false
+	for _, v := range vs {
+		lv = append(lv, &labi.Validator{Address: Addr(v.A), BFTWeight: v.W, GeneratorKey: []byte{byte(v.A), 1}, BLSKey: blsKey(v)})
+		zero = zero || v.W == 0
+	}
+	if !zero {
+		out, _ := liskbft.GetBFTValidatorAndGenerators(lv)
+		return out
+	}
 	out := liskbft.BFTValidators{}
 	for _, v := range vs {
 		out = append(out, liskbft.NewValidator(Addr(v.A), v.W, blsKey(v)))
@@ -334,12 +349,13 @@ func (n *Node) Apply(b Block) Obs {
 		o.VHash = true
 		for _, h := range []uint32{b.H + 1, b.H, oldest} {
 			ps, err := m.API().GetBFTParameters(store, h)
-			p := ParamProbe{H: h, Err: err != nil, Vals: [][2]uint64{}}
+			p := ParamProbe{H: h, Err: err != nil, Vals: [][2]uint64{}, Keys: []string{}}
 			if err == nil {
 				p.PV, p.PC, p.Cert = ps.PrevoteThreshold(), ps.PrecommitThreshold(), ps.CertificateThreshold()
 				keys, ws := [][]byte{}, []uint64{}
 				for _, v := range ps.Validators() {
 					p.Vals = append(p.Vals, [2]uint64{uint64(AddrN(v.Address())), v.BFTWeight()})
+					p.Keys = append(p.Keys, hex.EncodeToString(v.BLSKey()))
 					keys = append(keys, v.BLSKey())
 					ws = append(ws, v.BFTWeight())
 				}
